@@ -12,10 +12,12 @@ CONSTANTS WLS,           \* wavelengths (integers, D = 1)
           H,             \* native cells are H, 2H, 3H, H, .. cm-1 wide
           U,             \* > 0: every centre, half-width and native edge is a multiple of U/2 cm-1 and the
                          \*      window algorithm of FluxBinner is checked on that lattice; 0: definition only
-          AlgVariant,    \* "ok" | "resumestart" | "resumestop" | "resume"
+          AlgVariant,    \* "ok" | "resumestart" | "resumestop" | "resume" | "compact"
+          Cuts,          \* subset of {"none", "low", "high", "both", "gap"}: how much of the span of the observation's bins
+                         \* the model's native grid reaches (COVERAGE of the bins by the model; see CutSet)
           Export
-VARIABLES phase, ncol, rows, out, nat
-vars == <<phase, ncol, rows, out, nat>>
+VARIABLES phase, ncol, rows, out, nat, nf, cut
+vars == <<phase, ncol, rows, out, nat, nf, cut>>
 D == 1
 Primes == <<2, 3, 5, 7, 11, 13>>
 KSeqs(nc) == UNION {{SetToSortSeq(S, LAMBDA a, b : a < b) : S \in {T \in SUBSET WLS : Cardinality(T) = n}} : n \in NMin..(IF nc = 4 THEN NMax ELSE NMax3)}
@@ -25,11 +27,35 @@ AllRows(nc) == {r \in UNION {RowsOf(ks, nc) : ks \in KSeqs(nc)} : Loadable(r, nc
 \* the native model of an observation (reading A of the widths; 3 columns: wide enough for reading B too)
 NativeOf(L) == NatFor(L.wn, [i \in 1..Len(L.wn) |-> RMax(L.wnwA[i], L.wnwB[i])], H)
 
-Init == phase = "in" /\ ncol \in NCols /\ rows \in AllRows(ncol) /\ out = <<>> /\ nat = <<>>
+\* ---- coverage: the native grid of the model is the covering one with cells removed.  The cut points are the
+\* edges of the observation's own bins (reading A), so every pattern "bins i.. lie beyond the low end / the high end /
+\* both ends / in a gap of the model" arises, in every position of the ascending order and hence of any row order;
+\* a native cell that straddles a cut point stays: the bins next to the cut are covered in part.
+\*   low:  cells wholly below a are removed       high: cells wholly above b are removed       both: both
+\*   gap:  cells wholly inside [a, b] are removed (the model is then given with explicit widths)
+EdgesOf(L) == UNION {{GLo(L.wn, L.wnwA, i), GHi(L.wn, L.wnwA, i)} : i \in 1..Len(L.wn)}
+NoCut == [kind |-> "none", a |-> Q(0), b |-> Q(0)]
+Keeps(c, cell) == CASE c.kind = "none" -> TRUE
+                    [] c.kind = "low"  -> RLt(c.a, Q(cell[2]))
+                    [] c.kind = "high" -> RLt(Q(cell[1]), c.b)
+                    [] c.kind = "both" -> RLt(c.a, Q(cell[2])) /\ RLt(Q(cell[1]), c.b)
+                    [] c.kind = "gap"  -> ~(RLe(c.a, Q(cell[1])) /\ RLe(Q(cell[2]), c.b))
+KeptIdx(N, c) == SetToSortSeq({k \in 1..Len(N) : Keeps(c, N[k])}, LAMBDA x, y : x < y)
+CutSet(L) ==
+    LET E == EdgesOf(L)  N == NativeOf(L)
+        all == (IF "none" \in Cuts THEN {NoCut} ELSE {})
+               \cup {[kind |-> k, a |-> e, b |-> e] : k \in Cuts \cap {"low", "high"}, e \in E}
+               \cup {[kind |-> k, a |-> e[1], b |-> e[2]] : k \in Cuts \cap {"both", "gap"}, e \in {x \in E \X E : RLt(x[1], x[2])}}
+    IN  {c \in all : c.kind = "none" \/ (Len(KeptIdx(N, c)) >= 2 /\ Len(KeptIdx(N, c)) < Len(N))}
+
+Init == /\ phase = "in" /\ ncol \in NCols /\ rows \in AllRows(ncol) /\ out = <<>> /\ nat = <<>> /\ nf = <<>>
+        /\ cut \in CutSet(Load(rows, D, ncol, "ok"))
 LoadRows == /\ phase = "in"
             /\ out' = Load(rows, D, ncol, "ok")
-            /\ nat' = NativeOf(Load(rows, D, ncol, "ok"))
-            /\ phase' = "done" /\ UNCHANGED <<ncol, rows>>
+            /\ LET N == NativeOf(Load(rows, D, ncol, "ok"))  ix == KeptIdx(N, cut)  V == NatVals(Len(N)) IN
+                 /\ nat' = [j \in 1..Len(ix) |-> N[ix[j]]]
+                 /\ nf'  = [j \in 1..Len(ix) |-> V[ix[j]]]
+            /\ phase' = "done" /\ UNCHANGED <<ncol, rows, cut>>
 Next == LoadRows
 Spec == Init /\ [][Next]_vars
 
@@ -37,11 +63,13 @@ Done == phase = "done"
 Perms == {[i \in 1..Len(rows) |-> p[i]] : p \in Permutations(1..Len(rows))}
 \* (nat is a state variable only so that TLC holds it as an evaluated value)
 NatM == nat
-F    == NatVals(Len(NatM))
-ModA(L) == ModelOnObs(L.wn, L.wnwA, NatM, F, 1)
-ModB(L) == ModelOnObs(L.wn, L.wnwB, NatM, F, 1)
+F    == nf
+\* records [k |-> "num", v |-> exact value] | [k |-> "outside"] | [k |-> "touch"]
+ModA(L) == ModelOnObsCov(L.wn, L.wnwA, NatM, F, 1)
+ModB(L) == ModelOnObsCov(L.wn, L.wnwB, NatM, F, 1)
+Num(e)  == e.k = "num"
 
-ModelCovered == Done => \A i \in 1..Len(out.wn) :
+ModelCovered == Done /\ cut.kind = "none" => \A i \in 1..Len(out.wn) :
     CoversBin(NatM, 1, out.wn[i], out.wnwA[i]) /\ CoversBin(NatM, 1, out.wn[i], out.wnwB[i])
 \* whatever the row order, element i of the binned model is the model over the bin of the very row
 \* whose value, error (and width) element i of the observation carries
@@ -51,12 +79,14 @@ ModelWithItsRow == Done /\ ncol = 4 => \A p \in Perms :
     LET L == Load(Permute(rows, p), D, ncol, "ok")  M == ModA(L) IN
     \A i \in 1..Len(L.wn) : \E r \in 1..Len(rows) :
         /\ L.val[i] = rows[r][2] /\ L.err[i] = rows[r][3]
-        /\ M[i] = ModelOnBin(NatM, F, 1, RowBin(r).c, RowBin(r).w)
+        /\ M[i] = CovBin(NatM, F, 1, RowBin(r).c, RowBin(r).w)
 ModelPermutationInvariant == Done => \A p \in Perms :
     LET L == Load(Permute(rows, p), D, ncol, "ok") IN ModA(L) = ModA(out) /\ ModB(L) = ModB(out)
 ModelBetween == Done => \A i \in 1..Len(out.wn) :
-    /\ RLe(Q(B!SeqMinI(F)), ModA(out)[i]) /\ RLe(ModA(out)[i], Q(B!SeqMaxI(F)))
-    /\ RLe(Q(B!SeqMinI(F)), ModB(out)[i]) /\ RLe(ModB(out)[i], Q(B!SeqMaxI(F)))
+    /\ Num(ModA(out)[i]) => RLe(Q(B!SeqMinI(F)), ModA(out)[i].v) /\ RLe(ModA(out)[i].v, Q(B!SeqMaxI(F)))
+    /\ Num(ModB(out)[i]) => RLe(Q(B!SeqMinI(F)), ModB(out)[i].v) /\ RLe(ModB(out)[i].v, Q(B!SeqMaxI(F)))
+\* with a model that reaches over every bin every element is a number
+AllNumWhenCovered == Done /\ cut.kind = "none" => \A i \in 1..Len(out.wn) : Num(ModA(out)[i]) /\ Num(ModB(out)[i])
 
 \* --------------------------------------------- FluxBinner on the lattice U/2
 Lat2(r) == RDiv(RMul(Q(2), r), Q(U))          \* doubled lattice coordinate of r cm-1
@@ -69,12 +99,17 @@ NMx == [k \in 1..Len(NatM) |-> (2 * NatM[k][2]) \div U]
 TC2(bn) == [i \in 1..Len(bn.grid) |-> Lat2(bn.grid[i])[1]]
 TW(bn)  == [i \in 1..Len(bn.grid) |-> RDiv(bn.widths[i], Q(U))[1]]
 \* create_binner() of the observation loaded from ANY row order, then bindown of the native model:
-\* entry i is the model over exactly [wn_i - w_i/2, wn_i + w_i/2] of the observation's element i
+\* entry i is the model over exactly [wn_i - w_i/2, wn_i + w_i/2] of the observation's element i -- where the
+\* model reaches that bin; a bin it does not reach is left at the zero the result starts from and the entries
+\* of the other bins stay at their own index
 AlgRefinesObs == Done /\ U > 0 => \A p \in Perms :
     LET L   == Load(Permute(rows, p), D, ncol, "ok")
         bn  == BinnerOf(L)
         res == WinFlux(NMn, NMx, F, TC2(bn), TW(bn), AlgVariant)
-    IN  \A i \in 1..Len(L.wn) : res[i] = [k |-> "num", v |-> ModelOnBin(NatM, F, 1, L.wn[i], L.wnwA[i])]
+        exp == ModA(L)
+    IN  \A i \in 1..Len(L.wn) : CASE exp[i].k = "num"     -> res[i] = exp[i]
+                                   [] exp[i].k = "outside" -> res[i] = [k |-> "zero"]
+                                   [] OTHER                -> TRUE
 \* the window algorithm written here is Binning!AlgBin (variant "ok") on these inputs
 WinIsBinning == Done /\ U > 0 =>
     LET bn  == BinnerOf(out)
@@ -84,10 +119,11 @@ WinIsBinning == Done /\ U > 0 =>
           LET a == B!AlgBin([k \in 1..Len(NatM) |-> (NMn[k] + NMx[k]) \div 2], [k \in 1..Len(NatM) |-> (NMx[k] - NMn[k]) \div 2],
                             F, z, TC2(bn)[i], TW(bn)[i], "ok")
           IN  a.k = res[i].k /\ (a.k = "num" => a.v = res[i].v)
-FitsInv == Done => \A i \in 1..Len(out.wn) : Fits(ModA(out)[i]) /\ Fits(ModB(out)[i])
+FitsInv == Done => \A i \in 1..Len(out.wn) : (Num(ModA(out)[i]) => Fits(ModA(out)[i].v)) /\ (Num(ModB(out)[i]) => Fits(ModB(out)[i].v))
 
 Emit == (Export /\ Done) =>
     PrintT(<<"VEC", ToJson([rows |-> rows, ncol |-> ncol, exp |-> out, nat |-> NatM, f |-> F,
                             modA |-> ModA(out), modB |-> ModB(out),
-                            geoA |-> Geo(out.wn, out.wnwA), geoB |-> Geo(out.wn, out.wnwB)])>>)
+                            geoA |-> Geo(out.wn, out.wnwA), geoB |-> Geo(out.wn, out.wnwB),
+                            cut |-> cut.kind, covA |-> CovPattern(out.wn, out.wnwA, NatM, 1), covB |-> CovPattern(out.wn, out.wnwB, NatM, 1)])>>)
 =============================================================================
